@@ -485,10 +485,56 @@ func runCluster(h *h3, hooks clusterHooks) *cluster {
 			lagBy = 400*time.Millisecond + time.Duration(op.Arg(1, 0)%14)*200*time.Millisecond
 			h.s.Logf("replication requests are delayed by %v until %v", lagBy, h.s.Now()+time.Until(lagUntil))
 			h.s.Count("fault.replication_requests_slow")
+		case "metalag":
+			// The metadata reach one server late for 1 - 6 s (its Raft connection is slow, everything else flows):
+			// it keeps following, fetching from and reporting to the leader it knows while the others have moved
+			// on. One server at a time, never the controller, so commits do not wait for it.
+			held := false
+			for _, x := range h.nodes {
+				if x.up && x.srv != nil {
+					if r := h.cluster.Node(raft.ServerID(x.id)); r != nil && r.Held() {
+						held = true
+					}
+				}
+			}
+			if !held {
+				var fs []*simNode
+				ld := c.leader()
+				for _, x := range h.nodes {
+					if px := c.partition(x); x.up && x != ld && px != nil && string(h.cluster.Leader) != x.id && !h.s.IsStalled(x.node) {
+						fs = append(fs, x)
+					}
+				}
+				if len(fs) > 0 {
+					f := fs[int(op.Arg(0, 0))%len(fs)]
+					if r := h.cluster.Node(raft.ServerID(f.id)); r != nil {
+						d := time.Second + time.Duration(op.Arg(1, 0)%11)*500*time.Millisecond
+						h.s.Logf("metadata reach %s late for %v", f.id, d)
+						r.Hold(d)
+						h.s.Count("fault.metadata_reach_a_server_late")
+					}
+				}
+			}
 		case "stall":
 			n := h.nodes[int(op.Arg(0, 0))%nn]
 			if n.up {
 				h.s.Stall(n.node, sleeps[int(op.Arg(1, 0))%len(sleeps)])
+			}
+		case "stallf":
+			// a follower misses a beat (0.1 - 0.9 s, less than the lag that would cost it its place in the in-sync
+			// set): what the leader stores meanwhile reaches the other followers only
+			var fs []*simNode
+			ld := c.leader()
+			for _, x := range h.nodes {
+				if px := c.partition(x); x.up && x != ld && px != nil && px.isFollowing {
+					fs = append(fs, x)
+				}
+			}
+			if len(fs) > 0 {
+				f := fs[int(op.Arg(0, 0))%len(fs)]
+				d := 100*time.Millisecond + time.Duration(op.Arg(1, 0)%9)*100*time.Millisecond
+				h.s.Logf("stall follower %s for %v", f.id, d)
+				h.s.Stall(f.node, d)
 			}
 		case "stalll":
 			// a slow partition leader: none of its tasks runs for 1 - 7 s (garbage collection, a swapped-out
